@@ -1,5 +1,5 @@
 (* C05 — the vesting module account is always exactly backed by its pools. *)
-From C4E Require Import Base Vest VestFrame VestProofs SolventProofs.
+From C4E Require Import Base Vest VestFrame VestProofs SolventProofs VestGenesis VestGenesisProofs.
 Open Scope Z_scope.
 
 (* Solvent w: pool owners are distinct keys, the module account is a blocked address, its balance in
@@ -53,3 +53,26 @@ Proof.
   split; [repeat (first [apply Forall_cons|apply Forall_nil]); simpl; unfold MODULE; first [lia|exact I]|].
   vm_compute. repeat split.
 Qed.
+
+(* ---------------------------------------------------------------------------------------------------------------
+   "at all times" starts at the first state of a chain: the genesis *)
+
+(* InitGenesis refuses every genesis whose module account does not hold exactly what the listed pools still lock ... *)
+Theorem C05_genesis_refuses_unbacked_module_account :
+  forall g B, B <> genesis_locked g -> vgenesis_init g B = None.
+Proof. exact init_refuses_unbacked_module_account. Qed.
+Print Assumptions C05_genesis_refuses_unbacked_module_account.
+
+(* ... in particular a funded module account when the genesis lists no pools at all *)
+Theorem C05_genesis_refuses_funded_module_account_without_pools :
+  forall g B, vg_owners g = [] -> B <> 0 -> vgenesis_init g B = None.
+Proof. exact init_refuses_funded_module_account_without_pools. Qed.
+Print Assumptions C05_genesis_refuses_funded_module_account_without_pools.
+
+(* a genesis that validates and is accepted stores pools that back the module account exactly, each within its
+   bounds, one entry per owner: the pool part of Solvent holds in the first state *)
+Theorem C05_accepted_genesis_is_backed :
+  forall g B s, vgenesis_valid g = true -> vgenesis_init g B = Some s ->
+  B = all_pools_sum (vs_pools s) /\ pools_ok (vs_pools s) /\ NoDup (map fst (vs_pools s)).
+Proof. exact accepted_genesis_is_backed. Qed.
+Print Assumptions C05_accepted_genesis_is_backed.
